@@ -913,6 +913,11 @@ class ProcessingPipeline:
 
     def apply(self, rule: SigmaRule | SigmaCorrelationRule) -> SigmaRule | SigmaCorrelationRule:
         """Apply processing pipeline on Sigma rule."""
+        # The items can be shared with pipelines created by concatenation in the meantime, which
+        # take them over. Claim them (again) to ensure that state, applied items and field mappings
+        # are tracked in this pipeline while it is applied.
+        self._clear_pipeline()
+        self.set_pipeline()
         self.applied = list()
         self.applied_ids = set()
         self.field_name_applied_ids = defaultdict(set)
